@@ -2,9 +2,9 @@
 # thorough tier of the harnesses added or changed in the third session (development aid): one line each
 run() { p=$1; h=$2; s=$(date +%s); ./check $p --tier thorough --strict --only $h > sweepn_${p}_$h.log 2>&1; rc=$?
   echo "$p $h exit=$rc $(( $(date +%s) - s ))s $(grep SUMMARY sweepn_${p}_$h.log | cut -c1-170)"; grep "^VIOLATION\|^INCONCLUSIVE" sweepn_${p}_$h.log | cut -c1-240 | head -4; }
-run C12 H2-handover; run C12 H3-sink-threads; run C09 H1-dependent-tasks; run C09 H3-resize-seq; run C10 H5-failing-rule-children-schedules; run C10 H1-rule-order
+run C10 H5-failing-rule-children-schedules; run C10 H1-rule-order
 run C05 H2-scoping; run C05 H3-fresh-lists; run C14 H4-failing-groups; run C14 H3-nested; run C20 H2-tree-dir-spellings; run C20 H2-tree-repack; run C20 H2-tree
 run C08 H6-comments; run C08 H5-format-files; run C03 H2-reeval; run C04 H2-loop-nest; run C04 H2-map-loop; run C04 H1-try-in-loop
 run C06 H9-cycles; run C06 H2-builtins-argument-forms; run C06 H6-mutated-programs; run C06 H4-event-state; run C06 H1-binary-operators
 run C16 H3-values-state-2; run C16 H3-values-state-4; run C15 H4-breakpoint-book; run C15 H5-console-deadlocks; run C15 H5-console-races; run C15 H1-transparent
-run C02 H4-nested-wait; run C11 H3-ecal-report; run C11 H2-shared-names; run C11 H1-wildcard-layout; run C13 H1-two-parses-rt0; run C18 H3-separation-values; run C17 H1-paths-5; run C19 H1-adapter
+run C02 H4-nested-wait; run C11 H3-ecal-report; run C11 H2-shared-names; run C11 H1-wildcard-layout; run C13 H1-two-parses-rt0; run C18 H3-separation-values; run C17 H1-paths-5; run C19 H1-adapter; run C09 H3-resize-seq
